@@ -768,6 +768,10 @@ type c20Plan struct {
 	Times      [3][]c20TimeRange // time ranges combined with trees of k atoms
 	Settings   [3][]c20Setting   // reader settings used for trees of k atoms
 	AllLayouts bool              // every composition of the rows into fragments of 1..3 rows instead of the fixed sizes 1,2,3
+	// Wide3: additional 3-atom family on records of <= Wide3 rows: two comparison atoms on the leading key column
+	// over the FULL literal alphabet plus one atom of the reduced alphabet on another column (a window on the
+	// leading key combined with a second key column; settings/time ranges of 3-atom trees)
+	Wide3 int
 }
 
 func c20Plans(thorough bool) []c20Plan {
@@ -799,6 +803,8 @@ func c20Plans(thorough bool) []c20Plan {
 				Times: [3][]c20TimeRange{times, times2, noTime}, Settings: [3][]c20Setting{setAll, set2, set1}},
 			c20Plan{Schema: mk("s,i,time", c20StrCol("s", false, false), c20IntCol("i", false, false), c20TimeCol()), Rows: [3]int{4, 3, 0},
 				Times: [3][]c20TimeRange{times, times2[:2], noTime}, Settings: [3][]c20Setting{setAll, set2, set1}},
+			c20Plan{Schema: mk("sw,iw", c20StrCol("sw", false, false), c20IntGapCol("iw", false)), Rows: [3]int{3, 0, 0}, Times: nt,
+				Settings: [3][]c20Setting{set1, set1, set1}, Wide3: 3},
 		)
 		return ps
 	}
@@ -824,6 +830,10 @@ func c20Plans(thorough bool) []c20Plan {
 			Times: [3][]c20TimeRange{times2, times2[:2], noTime}, Settings: sMid},
 		c20Plan{Schema: mk("i,s,time", c20IntCol("i", false, false), c20StrCol("s", false, false), c20TimeCol()), Rows: [3]int{4, 3, 0}, Times: at, Settings: sMid},
 		c20Plan{Schema: mk("s,i,j", c20StrCol("s", false, false), c20IntCol("i", false, true), c20IntCol("j", false, false)), Rows: [3]int{4, 3, 2}, Times: nt, Settings: sMid},
+		c20Plan{Schema: mk("sw,iw", c20StrCol("sw", false, false), c20IntGapCol("iw", false)), Rows: [3]int{4, 0, 0}, Times: nt,
+			Settings: [3][]c20Setting{set1, set1, set1}, Wide3: 4},
+		c20Plan{Schema: mk("iw,sw", c20IntGapCol("iw", false), c20StrCol("sw", false, false)), Rows: [3]int{4, 0, 0}, Times: nt,
+			Settings: [3][]c20Setting{set1, set1, set1}, Wide3: 4},
 	)
 	return ps
 }
@@ -839,6 +849,7 @@ type c20PKRun struct {
 	atoms  []c20Atom
 	conds  []c20Cond // ordered by number of atoms
 	nAtoms []int
+	maxRow []int // largest record a condition is run on
 	kcs    map[[2]int]KeyCondition // (cond, time) -> key condition; nil = rejected by NewKeyCondition
 	vio    map[string]int
 	panicSeen map[string]bool
@@ -849,7 +860,11 @@ type c20PKRun struct {
 func c20NewPKRun(p *c20Plan, rep *kit.Report, wi *int) *c20PKRun {
 	r := &c20PKRun{p: p, s: &p.Schema, rep: rep, kcs: map[[2]int]KeyCondition{}, vio: map[string]int{}, wi: wi}
 	r.atoms = r.s.allAtoms(false)
-	add := func(c c20Cond) { r.conds = append(r.conds, c); r.nAtoms = append(r.nAtoms, len(c.Atoms)) }
+	add := func(c c20Cond) {
+		r.conds = append(r.conds, c)
+		r.nAtoms = append(r.nAtoms, len(c.Atoms))
+		r.maxRow = append(r.maxRow, p.Rows[len(c.Atoms)-1])
+	}
 	for a := range r.atoms {
 		add(c20Cond{Atoms: []int{a}})
 	}
@@ -877,6 +892,32 @@ func c20NewPKRun(p *c20Plan, rep *kit.Report, wi *int) *c20PKRun {
 						for o := 0; o < 4; o++ {
 							add(c20Cond{Atoms: []int{a, b, c}, Shape: shape, And: [2]bool{o&1 != 0, o&2 != 0}})
 						}
+					}
+				}
+			}
+		}
+	}
+	if p.Wide3 > 0 {
+		var lead, other []int
+		for i, a := range r.atoms {
+			if a.Col == 0 && a.Op != "MATCHPHRASE" && a.Op != "IN" {
+				lead = append(lead, i)
+			}
+		}
+		for _, ra := range r.s.allAtoms(true) {
+			for i, a := range r.atoms {
+				if a == ra && a.Col != 0 {
+					other = append(other, i)
+				}
+			}
+		}
+		for _, a := range lead {
+			for _, b := range lead {
+				for _, c := range other {
+					for o := 0; o < 4; o++ {
+						add(c20Cond{Atoms: []int{a, b, c}, Shape: 2, And: [2]bool{o&1 != 0, o&2 != 0}})
+						add(c20Cond{Atoms: []int{c, a, b}, Shape: 3, And: [2]bool{o&1 != 0, o&2 != 0}})
+						r.maxRow[len(r.maxRow)-1], r.maxRow[len(r.maxRow)-2] = p.Wide3, p.Wide3
 					}
 				}
 			}
@@ -1044,10 +1085,7 @@ func (r *c20PKRun) group(recs [][]c20Row, members []int, layout, bounds []int, n
 	var evals, nontrivial int64
 	for ci, c := range r.conds {
 		na := r.nAtoms[ci]
-		if n > r.p.Rows[na-1] {
-			if na == 3 {
-				break
-			}
+		if n > r.maxRow[ci] {
 			continue
 		}
 		times, sets := r.p.Times[na-1], r.p.Settings[na-1]
@@ -2055,20 +2093,6 @@ func (p *c20SkPlan) run(rep *kit.Report, env *c20SkEnv, wi *int) {
 }
 
 
-// c20BoundaryToken: first two-letter upper-case token (AA, AB, ...) whose token hash addresses a bit >= 496 in
-// either half of the bloom filter word ((hash>>28)&0x1ff or (hash>>37)&0x1ff, see lib/bloomfilter).
-func c20BoundaryToken() string {
-	for a := byte('A'); a <= 'Z'; a++ {
-		for b := byte('A'); b <= 'Z'; b++ {
-			h := tokenizer.Hash([]byte{a, b})
-			if (h>>28)&0x1ff >= 496 || (h>>37)&0x1ff >= 496 {
-				return string([]byte{a, b})
-			}
-		}
-	}
-	return "C"
-}
-
 func c20SkPlans(thorough bool) []c20SkPlan {
 	S, I := influx.Field_Type_String, influx.Field_Type_Int
 	v := c20SkCol{Name: "v", Typ: I, Dom: []*string{c20Str("1"), c20Str("2")}, ByPosition: true}
@@ -2082,20 +2106,18 @@ func c20SkPlans(thorough bool) []c20SkPlan {
 		}
 		return out
 	}
-	// bloom filter on string column c (unsorted), non-indexed column v.
-	// T is a token whose hash selects a bit position >= 496 inside the 512-bit word of the one-hit bloom filter
-	// (the boundary at which the filter versions differ), found by a fixed search order.
-	T := c20BoundaryToken()
-	cDom := []*string{nil, c20Str("A"), c20Str(T), c20Str("AC"), c20Str("A " + T)}
+	// bloom filter on string column c (unsorted), non-indexed column v. ACDC: a longer token that starts with
+	// another token (a hash seed only reaches the addressed filter bits from the third byte on).
+	cDom := []*string{nil, c20Str("A"), c20Str("C"), c20Str("ACDC"), c20Str("A C")}
 	mp := func(l string) c20SkAtom { return c20SkAtom{"c", S, "MATCHPHRASE", l} }
-	bfAtoms := []c20SkAtom{mp("A"), mp(T), mp("E"), mp("A " + T), mp(T + " A"), mp("AC"),
+	bfAtoms := []c20SkAtom{mp("A"), mp("C"), mp("E"), mp("A C"), mp("C A"), mp("ACDC"),
 		{"c", S, "=", "A"}, {"c", S, "!=", "A"}, {"c", S, ">=", "C"}, vAtom}
-	bfAtoms3 := []c20SkAtom{mp("A"), mp("A " + T), mp("E"), {"c", S, "!=", "A"}, vAtom}
+	bfAtoms3 := []c20SkAtom{mp("A"), mp("A C"), mp("ACDC"), {"c", S, "!=", "A"}, vAtom}
 	bfRows := [3]int{3, 3, 2}
 	if thorough {
 		cDom = append(cDom, c20Str("C-A"), c20Str("a"))
-		bfAtoms = append(bfAtoms, mp("a"), mp("C"), mp("C-A"), mp("A-C"))
-		bfAtoms3 = append(bfAtoms3, mp(T))
+		bfAtoms = append(bfAtoms, mp("a"), mp("C-A"), mp("A-C"))
+		bfAtoms3 = append(bfAtoms3, mp("C"), mp("E"))
 		bfRows = [3]int{4, 3, 3}
 	}
 	sDom := []*string{nil, c20Str("A"), c20Str("C"), c20Str("D")}
